@@ -20,6 +20,7 @@ def run(prog, chk):
     chk.decided += [
         "subroutiniser dispatch is exhaustive over the backend enum; version-default table covers every CFF version (R12.1)",
         "the subroutiniser that runs is the one the caller asked for, the version default only when none was requested: unsupported combinations reach their NotImplementedError (R12.7)",
+        "the encoding options are read by the compilers, the outline compiler and the post-processor only: no pre-processor / filter / feature code sees them, not even as a parameter name (R12.8)",
         "unsupported combinations reach NotImplementedError: compreffor with non-CFF1, CFF2->CFF without subroutinising, unknown post format (R12.2)",
         "specialise iff >= SPECIALIZE, subroutinise iff >= SUBROUTINIZE, consistent with the IntEnum order; interpolatable masters force NONE (R12.3)",
         "options optimizeCFF/cffVersion/subroutinizer/roundTolerance reach their consumer by name (R12.4)",
@@ -215,6 +216,7 @@ def run(prog, chk):
     chk.minimum("R12.4", 15)
     chk.guard(r126, prog, chk)
     chk.guard(r127, prog, chk)
+    chk.guard(r128, prog, chk)
 
 
 def masters_force_none(prog, chk, rule):
@@ -338,7 +340,54 @@ def r127(prog, chk):
     chk.minimum("R12.7", 1)
 
 
+
+# ----------------------------------------------------------------------------- R12.8
+ENCODING_OPTIONS = ("cffVersion", "optimizeCFF", "subroutinizer")
+ENCODING_READERS = ("ufo2ft", "ufo2ft._compilers", "ufo2ft.outlineCompiler", "ufo2ft.postProcessor", "ufo2ft.constants", "ufo2ft.__main__")
+
+
+def r128(prog, chk):
+    """The encoding options (cffVersion, optimizeCFF, subroutinizer) decide how the outlines are WRITTEN, never what they are:
+    nothing in the pre-processing pipeline (pre-processors, filters), the feature code or the utilities reads them - not even
+    as a parameter name, because the compilers hand every field to any callee parameter of the same name
+    (prune_unknown_kwargs(self.__dict__, ...))."""
+    ix = prog.ix
+    n = 0
+    bad = []
+    for fi in ix.functions.values():
+        mn = fi.module.name
+        if mn == "ufo2ft" or any(mn == r_ or mn.startswith(r_ + ".") for r_ in ENCODING_READERS if r_ != "ufo2ft"):
+            continue
+        n += 1
+        if isinstance(fi.node, ast.Lambda):
+            continue
+        for p_ in fi.params():
+            if p_.lstrip("*") in ENCODING_OPTIONS:
+                bad.append((fi, fi.node, f"parameter {p_}"))
+        for x in A.body_nodes(fi.node):
+            if isinstance(x, ast.Name) and x.id in ENCODING_OPTIONS:
+                bad.append((fi, x, f"name {x.id}"))
+            elif isinstance(x, ast.Attribute) and x.attr in ENCODING_OPTIONS:
+                bad.append((fi, x, f"attribute .{x.attr}"))
+            elif isinstance(x, ast.Constant) and x.value in ENCODING_OPTIONS and isinstance(ix.parent(x), (ast.Subscript, ast.Call)):
+                bad.append((fi, x, f"key {x.value!r}"))
+    seen = set()
+    for fi, node, what_ in bad:
+        k_ = (fi.short, what_)
+        if k_ in seen:
+            continue
+        seen.add(k_)
+        chk.ob("R12.8", f"{fi.short}|{what_}|encoding options are not visible outside the compilers, the outline compiler and the post-processor", False, where(fi, node), detail=what_,
+               message=f"{fi.short} ({fi.module.name}) reads the encoding option through {what_}: pre-processing / layout code can now produce different outlines or tables "
+                       f"depending on how the font is going to be encoded")
+    chk.ob("R12.8", "encoding options are read by the compilers, the outline compiler and the post-processor only", not bad, "Lib/ufo2ft", detail=f"{n} functions outside those modules examined", nontrivial=False)
+    need(n >= 300, "too few functions examined")
+    chk.minimum("R12.8", 1)
+
+
 MUTANTS = [
+    M("overlap removal skipped for CFF2 (seeded C12g)", "ufo2ft/preProcessor.py", "OTFPreProcessor.initDefaultFilters",
+      "<rename-param>", "overlapsBackend->cffVersion", rule="R12.8"),
     M("an unsupported explicit backend is replaced by the version default (seeded C12f shape)", "ufo2ft/postProcessor.py", "PostProcessor.process_cff",
       "backend = self.SubroutinizerBackend(subroutinizer)", "backend = self.SubroutinizerBackend(subroutinizer)\nif cffOutputVersion == CFFVersion.CFF2:\n    backend = self.DEFAULT_SUBROUTINIZER_FOR_CFF_VERSION[cffOutputVersion]", rule="R12.7"),
     M("empty glyphs get a hand-built charstring with a truthiness test of the operand (seeded C12b)", "ufo2ft/outlineCompiler.py", "OutlineOTFCompiler.getCharStringForGlyph",
